@@ -32,6 +32,12 @@ class Tokens:
         return k
 
     def parse(self, text):
+        if hasattr(text, "values") and hasattr(text, "dims"):
+            text = np.asarray(text.values)
+        if isinstance(text, np.ndarray) and text.dtype == object and text.size == 1:
+            text = text.ravel()[0]
+        if isinstance(text, (Sym, SymBool)):
+            return text      # float() of a value that is already a (symbolic) number
         t = text.strip() if isinstance(text, str) else text
         if isinstance(t, str) and t in self.tab:
             v, spec = self.tab[t]
@@ -102,11 +108,25 @@ def text_layer(*modules):
     def ones(shape, dtype=None, **kw):
         return full(shape, 1.0)
 
+    def genfromtxt(lines, **kw):
+        """whitespace separated table of numbers / tokens (list of text lines or a path)."""
+        if isinstance(lines, str):
+            with open(lines) as f_:
+                lines = f_.readlines()
+        rows = [[tok.parse(t) for t in ln.split()] for ln in lines if ln.strip()]
+        if any(isinstance(v, Sym) for r in rows for v in r):
+            a = np.empty((len(rows), len(rows[0])), dtype=object)
+            for i, r in enumerate(rows):
+                for j, v in enumerate(r):
+                    a[i, j] = v if isinstance(v, Sym) else CF(v)
+            return a[0] if len(rows) == 1 else (a[:, 0] if a.shape[1] == 1 else a)
+        return np.genfromtxt(lines, **kw)
+
     saved = []
     for m in modules:
         saved.append((m, m.__dict__.get("np"), m.__dict__.get("float", None), "float" in m.__dict__))
         if "np" in m.__dict__:
-            m.np = _Proxy(np, savetxt=savetxt, zeros=zeros, isnan=_isnan, full=full, ones=ones, empty=zeros)
+            m.np = _Proxy(np, savetxt=savetxt, zeros=zeros, isnan=_isnan, full=full, ones=ones, empty=zeros, genfromtxt=genfromtxt)
         m.float = tok.parse
     try:
         yield tok
